@@ -21,8 +21,9 @@ import (
 
 // SQLBackend is how the checks execute emitted SQL: the pgsql-AST evaluator (there is no PostgreSQL in the sandbox).
 type SQLBackend struct {
-	// Run evaluates a translated statement on a graph. kindIDs maps kind names to the ids the kind mapper assigned.
-	Run func(res translate.Result, g *gm.Graph, kindIDs map[string]int16) (*gm.Rows, error)
+	// Prepare compiles a translated statement once; the returned function evaluates it on a graph. kindIDs maps kind
+	// names to the ids the kind mapper assigned.
+	Prepare func(res translate.Result) (run func(g *gm.Graph, kindIDs map[string]int16) (*gm.Rows, error), err error)
 	// IsOutside: the evaluator does not implement a construct of this statement (never a verdict).
 	IsOutside func(err error) bool
 	// IsRuntime: PostgreSQL would raise a run-time error (the query is "rejected with an error").
@@ -38,7 +39,7 @@ type Query struct {
 }
 
 // Params used for the enumerated texts' $parameters.
-var DefaultParams = map[string]any{"p": "a", "v": int64(1), "s": int64(1), "l": int64(1), "list": []any{"a", "b"}}
+var DefaultParams = map[string]any{"p": "a", "q": "b", "ps": []any{"a", "c"}, "v": int64(1), "s": int64(1), "l": int64(1)}
 
 // Queries returns the query set of a tier: every enumerated text with at most k features plus the corpus queries.
 func Queries(k int) []Query {
@@ -165,19 +166,50 @@ type Outcome struct {
 	Err     error
 	Outside bool
 	Runtime bool
+	// Internal: the evaluator itself failed (a bug in the machinery, never a verdict).
+	Internal bool
 }
 
-func (b *SQLBackend) eval(res translate.Result, g *gm.Graph, kindIDs map[string]int16) (o Outcome) {
+// Statement is a prepared translation.
+type Statement struct {
+	b    *SQLBackend
+	run  func(g *gm.Graph, kindIDs map[string]int16) (*gm.Rows, error)
+	perr error
+}
+
+func (b *SQLBackend) prepare(res translate.Result) *Statement {
+	st := &Statement{b: b}
+	func() {
+		defer func() {
+			if p := recover(); p != nil {
+				st.perr = fmt.Errorf("evaluator panic while preparing: %v", p)
+			}
+		}()
+		st.run, st.perr = b.Prepare(res)
+	}()
+	return st
+}
+
+func (st *Statement) eval(g *gm.Graph, kindIDs map[string]int16) (o Outcome) {
+	if st.perr != nil {
+		return st.classify(st.perr)
+	}
 	defer func() {
 		if p := recover(); p != nil {
-			o = Outcome{Err: fmt.Errorf("evaluator panic: %v", p), Outside: true}
+			o = Outcome{Err: fmt.Errorf("evaluator panic: %v", p), Internal: true}
 		}
 	}()
-	rows, err := b.Run(res, g, kindIDs)
+	rows, err := st.run(g, kindIDs)
 	if err != nil {
-		return Outcome{Err: err, Outside: b.IsOutside(err), Runtime: b.IsRuntime(err)}
+		return st.classify(err)
 	}
 	return Outcome{Rows: rows}
+}
+
+func (st *Statement) classify(err error) Outcome {
+	o := Outcome{Err: err, Outside: st.b.IsOutside(err), Runtime: st.b.IsRuntime(err)}
+	o.Internal = !o.Outside && !o.Runtime
+	return o
 }
 
 // refEval runs the reference evaluator, classifying its refusals.
